@@ -1384,27 +1384,42 @@ func rule1016(r *core.Run) {
 			return
 		}
 		n++
-		// the argument, and — where it is read back from a field of the backend under construction —
-		// every value this constructor stores into that field
-		vals := []ssa.Value{c.Call.Args[0]}
-		if ld, isLd := core.Forward(c.Call.Args[0]).(*ssa.UnOp); isLd && ld.Op == token.MUL {
-			if fa, isFA := ld.X.(*ssa.FieldAddr); isFA {
-				fldName := r.P.FieldName(fa)
-				vals = nil // judged by what is stored into the field, not by a field-insensitive view of the struct
-				core.Instrs(fn, func(y ssa.Instruction) {
-					if st, isSt := y.(*ssa.Store); isSt {
-						if fa2, ok2 := st.Addr.(*ssa.FieldAddr); ok2 && r.P.FieldName(fa2) == fldName {
-							vals = append(vals, st.Val)
+		// the alternatives the argument can be (merged values taken apart); one that is read back
+		// from a field of the backend under construction is replaced by what this constructor
+		// stores into that field (a value the caller configured stays out of the picture)
+		var leaves []ssa.Value
+		seenV := map[ssa.Value]bool{}
+		var flat func(v ssa.Value, d int)
+		flat = func(v ssa.Value, d int) {
+			v = core.Forward(v)
+			if seenV[v] || d > 5 {
+				return
+			}
+			seenV[v] = true
+			switch x := v.(type) {
+			case *ssa.Phi:
+				for _, e := range x.Edges {
+					flat(e, d+1)
+				}
+				return
+			case *ssa.UnOp:
+				if fa, isFA := x.X.(*ssa.FieldAddr); isFA && x.Op == token.MUL {
+					fldName := r.P.FieldName(fa)
+					core.Instrs(fn, func(y ssa.Instruction) {
+						if st, isSt := y.(*ssa.Store); isSt {
+							if fa2, ok2 := st.Addr.(*ssa.FieldAddr); ok2 && r.P.FieldName(fa2) == fldName {
+								flat(st.Val, d+1)
+							}
 						}
-					}
-				})
-				if len(vals) == 0 {
-					vals = []ssa.Value{c.Call.Args[0]}
+					})
+					return
 				}
 			}
+			leaves = append(leaves, v)
 		}
+		flat(c.Call.Args[0], 0)
 		bad := false
-		for _, v := range vals {
+		for _, v := range leaves {
 			s := r.P.SliceOf(v, core.SliceOpts{Depth: 0}) // within the constructor: what the call sites are given
 			if s.Has("const:buckets") || s.Has("field:s3afero.MultiBucketBackend.bucketFs") {
 				bad = true
